@@ -31,7 +31,7 @@ BUDGET = {"quick": 1500, "thorough": 40000}
 FUZZ = {"quick": 0, "thorough": 48000}  # executions of the coverage-guided stage (vlib/fuzz.py)
 SHRINK_SECONDS = {"quick": 30, "thorough": 150}
 RULE = (
-    "case = (problem, injection kind, location/size parameters). Non-trivial = an injection other than 'none' whose "
+    "case = (problem, injection kind, location/size parameters; a rejection during the sweep must repeat when the sweep is repeated). Non-trivial = an injection other than 'none' whose "
     "location is outside block pair (0,1), or sits in a sparse / symbolic value, or in a non-Hermitian problem, or is a "
     "mask/eigenvector/option fault; 'none' cases count when N >= 3 and K >= 3. Distinct = distinct case hash."
 )
